@@ -35,12 +35,12 @@ LEDGER = {
                     [M("mintburn,create,flags,issue,ESDTTransfer", supply=3, ctr=2, accsample=8), M("mintburn,create,roles,issue", supply=3, hs=("u0a", "u0b"))]),
                 need=dict(supply_ok=20, overdraft_rej=2, role_rej=2)),
     "C03": dict(profile="roles", preds=["P03_Authority", "P03_Grant", "P03_Denied", "P03_RoleOpsExact"],
-                mc=([M("mintburn,roles,acct"), M("create,handover,metaops")],
+                mc=([M("mintburn,roles,acct"), M("create,handover,metaops"), M("create,metaops,nftroles", hs=("u0a",))],
                     [M("mintburn,roles,acct", supply=3, accsample=2), M("create,handover,metaops,ESDTNFTTransfer", ctr=2, hs=("u0a", "u1a")), M("mintburn,create,handover,acct", hs=("u0a", "u1a"))]),
                 need=dict(role_ok=10, role_rej=5, acct_ok=3, acct_rej=2, handover_ok=1, flag_ok=3)),
     "C04": dict(profile="freeze", preds=["P04_Immobile", "P04_NoCreditWhilePaused", "P04_FlagOnly", "P04_FlagTakesEffect", "P04_Restores"],
                 mc=([M("ESDTNFTTransfer,MultiESDTNFTTransfer,create,flags", hs=("u0a", "u1a"), ptoks=("4e",), pshards=(0, 1), freeze=(), rejected=False),
-                     M("ESDTTransfer,MultiESDTNFTTransfer,flags,mintburn,issue", hs=("u0a", "u1a"), pshards=(1,), supply=3, rejsample=25)],
+                     M("ESDTTransfer,MultiESDTNFTTransfer,flags,mintburn,issue", hs=("u0a", "u0b"), supply=3, rejsample=20)],
                     [M("ESDTNFTTransfer,MultiESDTNFTTransfer,create,flags", ptoks=("4e",), pshards=(0, 1), freeze=(), accsample=3), M("ESDTTransfer,MultiESDTNFTTransfer,flags,mintburn,issue", freeze=("u0a", "u1a"), pshards=(0, 1), supply=3, accsample=6)]),
                 need=dict(frozen_rej=3, paused_rej=3, flag_ok=10, refund_ok=1)),
     "C05": dict(profile="kv", preds=["P05_Protected", "P05_KVExact", "P05_Frame"],
